@@ -11,9 +11,16 @@
     `joinPoint/insertPoint/dropPoint/liftTarget_in_range`, and `…_never_raises` for `can_join`,
     `join_point`, `insert_point`, `drop_point`, `lift_target`, `can_split`, `can_change_type`,
     `find_wrapping` on valid documents, each with its exact guard.
-  That an *approved* edit then succeeds is decided by correspondence and search (open findings: lifting
-  out of nested lists; marks the wrapper disallows; and `can_join` does not look at `check_join`'s
-  `compatible_content`, see the report of this work package).
+  * **an approved edit then succeeds** (valid normal-form document; each with its explicit decidable guard, the
+    unguarded statement being false for model and code alike — counterexamples next to each theorem):
+    `canSplit_split_applies` (`splitGuard`: a cut strictly inside a text child leaves a left half the parent accepts),
+    `canJoin_join_applies` (`joinGuard`: `check_join`'s `compatible_content`; `TextStable`),
+    `liftTarget_lift_applies_flat` / `liftTarget_lift_applies` (`liftFlatGuard`: nothing is split; `liftGuard`: the pieces
+    a splitting lift leaves behind and the target level with the copies in place are valid content; `TextStable`),
+    `findWrapping_wrap_applies` / `findWrapping_wrap_succeeds` (`wrapGuard`: the innermost wrapper allows the marks of the
+    run; `wrapBuilds`: every wrapper accepts the next one as its only child).  Each yields a schema-valid document (C01)
+    that keeps the text and leaf nodes.  Helpers: Proofs/Level.lean, LevelReplace.lean, ContentBetween.lean,
+    SplitSuccess.lean, JoinSuccess.lean, LiftSuccess.lean, LiftSplit.lean, WrapSuccess.lean.
   Helpers: Proofs/Respects.lean, Proofs/StructEdit.lean, Proofs/Structure2.lean.
 -/
 import PM.Monitor
@@ -23,6 +30,11 @@ import Props.C01
 import Proofs.StructEdit
 import Proofs.Structure2
 import Props.C18
+import Proofs.SplitSuccess
+import Proofs.JoinSuccess
+import Proofs.WrapSuccess
+import Proofs.LiftSuccess
+import Proofs.LiftSplit
 namespace PM.C12
 open PM
 
@@ -529,17 +541,18 @@ example : dropPoint exSchema exDoc 2 ⟨[.elem 1 [] [] [.elem 2 [] [] []]], 0, 0
 example : canSplit exSchema exDoc 3 0 = none := by rfl
 example : canJoin exSchema exDoc 9 = none := by rfl
 
-/-! ### not stated: `canJoin_join_applies`
+/-! ### an approved join applies, given `check_join`'s test
 
-    The stretch statement
+    The unguarded statement
       `canJoin S doc pos = some (some true) → joinStep pos 1 = .ok st → ∃ doc', S.apply st doc = .ok doc'`
     is **false** for arbitrary schemas, for the model and for the code alike: `joinable` asks
     `a.can_append(b)` (does `b`'s content continue `a`'s), the join itself asks `check_join`
     (`b.type.compatible_content(a.type)`: do the two *start* states share an edge).  In the schema
     `doc: A B*`, `A: x y*`, `B: y+` and the document `doc(A(x), B(y))`, `can_join(doc, 3)` and `join_point(doc, 3)`
-    approve and `Transform.join(3)` raises `TransformError("Cannot join B onto A")`.  A conditional version
-    needs `compatibleContent`, `TextStable` (the join merges adjacent text nodes, `can_append` does not) and the
-    success characterisation of `replace`; it was not attempted. -/
+    approve and `Transform.join(3)` raises `TransformError("Cannot join B onto A")` (`cexSchema` below).
+    `joinGuard` (PM/Structure2.lean) is that test.  The second hypothesis is `TextStable`: the join merges
+    adjacent text nodes, `can_append` looks at the unmerged child list (`joinTsSchema` below: content
+    `(text|image) (text|image) (text image)?`, `A(em("a"), "b")` joined with `B("c", image)`). -/
 
 private def cexNT (name : String) (leaf : Bool) (dfa : Array DfaState) : NodeType :=
   { name := name, isText := false, isInline := false, isLeaf := leaf, isAtom := leaf, inlineContent := false,
@@ -561,5 +574,607 @@ example : canJoin cexSchema cexDoc 3 = some (some true) := by rfl
 example : joinPoint cexSchema cexDoc 3 (-1) = some (some 3) := by rfl
 /-- … and the join is refused by `check_join` -/
 example : cexSchema.compatibleContent 2 1 = false := by rfl
+
+/-! ### an approved split applies
+
+    The unguarded statement
+      `canSplit S doc pos depth = some true → splitStep doc pos depth = .ok st → ∃ doc', S.apply st doc = .ok doc'`
+    is **false** for the model and for the code alike (upstream too): when the cut falls *inside* a text
+    child, `can_split` validates the parent's children *before* that text (`can_replace(index, child_count)`)
+    and the children from it on (`valid_content(cut_by_index(index, …))`), but the left half also contains
+    the first part of the text.  With content `(text image)*` and the paragraph `p("ab", image)`,
+    `can_split(doc, 2)` approves and `Transform.split(2)` raises `TransformError("Invalid content for node p")`
+    (`splitCex…` below).  `splitGuard` (PM/Structure.lean) asks for `can_replace(index + 1, child_count)` in
+    that case; it holds at every cut that is not strictly inside a text child, and for every `text*` /
+    `inline*` textblock.  Nothing else is needed: no `TextStable`, the two text halves never become
+    neighbours. -/
+
+/-- **`can_split` approves ⇒ `split` succeeds** with a schema-valid document that keeps the text and leaf
+    nodes: valid normal-form document, pair-aligned position, and `splitGuard`. (`pos` in range and
+    `1 ≤ depth ≤ depth of pos` are implied by the approval.) -/
+theorem canSplit_split_applies (S : Schema) (doc : Node) (pos depth : Nat) (st : Step)
+    (hv : C01.Valid S doc) (hn : fnorm doc.kids = true) (hal : pairAligned doc pos = true)
+    (hg : splitGuard S doc pos = true)
+    (hc : canSplit S doc pos depth = some true) (hb : splitStep doc pos depth = .ok st) :
+    ∃ doc', S.apply st doc = .ok doc' ∧ C01.Valid S doc' ∧
+      (ftoks doc'.kids).filter Tok.isContent = (ftoks doc.kids).filter Tok.isContent := by
+  unfold canSplit at hc
+  cases hr : doc.resolve pos with
+  | none => simp [hr] at hc
+  | some r =>
+    simp only [hr] at hc
+    obtain ⟨hd1, hdd, _⟩ := canSplitR_true S r depth hc
+    have R := resolve_resolved hr
+    have hal' : r.pairOk = true := by simpa [pairAligned, hr] using hal
+    have hg' : splitGuardR S r = true := by simpa [splitGuard, hr] using hg
+    cases doc with
+    | text s m => have := R.depth_eq; simp [Node.kids, depthAt] at this; omega
+    | leaf t a m => have := R.depth_eq; simp [Node.kids, depthAt] at this; omega
+    | elem ty0 a0 m0 K =>
+      obtain ⟨doc', hap⟩ := split_applies S ty0 a0 m0 K pos depth r st hr hv hn hal' hg' hd1 hc hb
+      obtain ⟨sl, rfl, hsl⟩ := split_payload S depth st hr hv hd1 hdd hb
+      exact ⟨doc', hap, C01.apply_valid S (.replace pos pos sl true) _ doc' hv hsl hap,
+        split_keeps_content S _ doc' pos depth _ hb hap⟩
+
+/-- the guard is needed: content `(text image)*`, the paragraph `p("ab", image)` cut inside the text -/
+private def splitCexSchema : Schema :=
+  { nodes := #[cexNT "doc" false #[⟨false, [(1, 1)]⟩, ⟨true, [(1, 1)]⟩],
+      cexNT "p" false #[⟨true, [(2, 1)]⟩, ⟨false, [(3, 0)]⟩],
+      { cexNT "text" true #[⟨true, []⟩] with isText := true, isInline := true },
+      { cexNT "image" true #[⟨true, []⟩] with isInline := true }],
+    marks := #[], top := 0, textTy := 2 }
+
+private def splitCexDoc : Node := .elem 0 [] [] [.elem 1 [] [] [.text [97, 98] [], .leaf 3 [] []]]
+
+example : C01.Valid splitCexSchema splitCexDoc := by rfl
+example : fnorm splitCexDoc.kids = true := by rfl
+example : pairAligned splitCexDoc 2 = true := by rfl
+/-- the helper approves … -/
+example : canSplit splitCexSchema splitCexDoc 2 1 = some true := by rfl
+/-- … the guard does not hold … -/
+example : splitGuard splitCexSchema splitCexDoc 2 = false := by rfl
+/-- … and the split is refused: the left half `p("a")` is not valid content -/
+example : splitStep splitCexDoc 2 1 = .ok (.replace 2 2 ⟨[.elem 1 [] [] [], .elem 1 [] [] []], 1, 1⟩ true) := by rfl
+example : splitCexSchema.apply (.replace 2 2 ⟨[.elem 1 [] [] [], .elem 1 [] [] []], 1, 1⟩ true) splitCexDoc
+    = .error .failed := by
+  have hc : contentBetween splitCexDoc 2 2 = some false := by
+    obtain ⟨r, hr⟩ := resolve_isSome splitCexDoc 2 (by decide)
+    exact contentBetween_empty _ _ r hr
+  have hv : splitCexSchema.validContent 1 [.text [97] []] = false := by decide
+  unfold splitCexDoc at hc
+  simp [Schema.apply, hc, Schema.fromReplace, Schema.replace, splitCexDoc, replaceKids,
+    inRange, depthAt, Slice.wf, spineL, spineR, outer, atLevel, threeWay, threeWay.rightJoinCheck, twoWay,
+    splitRight, splitOk, isHigh, isLow, Schema.close, fromArray, addNodes, addNode, hv,
+    Except.map, Schema.compatibleContent]
+/-- at the node boundaries of the same paragraph the guard holds and the split applies -/
+example : splitGuard splitCexSchema splitCexDoc 1 = true ∧ canSplit splitCexSchema splitCexDoc 1 1 = some true := by
+  exact ⟨rfl, rfl⟩
+/-- a non-trivial instance of all hypotheses: `exDoc` cut inside the text of the first paragraph, two levels -/
+example : C01.Valid exSchema exDoc ∧ fnorm exDoc.kids = true ∧ pairAligned exDoc 3 = true ∧
+    splitGuard exSchema exDoc 3 = true ∧ canSplit exSchema exDoc 3 2 = some true := by
+  exact ⟨rfl, rfl, rfl, rfl, rfl⟩
+
+/-- **`can_join` approves ∧ `joinGuard` (`check_join`'s `compatible_content`) ∧ `TextStable` ⇒ `join`
+    succeeds** with a schema-valid document that keeps the text and leaf nodes.  (The approval implies that
+    `pos` is a child boundary between two nodes, so no alignment hypothesis is needed.) -/
+theorem canJoin_join_applies (S : Schema) (hts : C01.TextStable S) (doc : Node) (pos : Nat) (st : Step)
+    (hv : C01.Valid S doc) (hn : fnorm doc.kids = true)
+    (hg : joinGuard S doc pos = true)
+    (hc : canJoin S doc pos = some (some true)) (hb : joinStep pos 1 = .ok st) :
+    ∃ doc', S.apply st doc = .ok doc' ∧ C01.Valid S doc' ∧
+      (ftoks doc'.kids).filter Tok.isContent = (ftoks doc.kids).filter Tok.isContent := by
+  unfold canJoin at hc
+  cases hr : doc.resolve pos with
+  | none => simp [hr] at hc
+  | some r =>
+    simp only [hr] at hc
+    have R := resolve_resolved hr
+    have hg' : joinGuardR S r = true := by simpa [joinGuard, hr] using hg
+    have hpay : ∀ f t, C01.PayloadValid S doc (.replace f t Slice.empty true) := by
+      intro f t
+      simp [C01.PayloadValid, Slice.empty, openValid, rightOpenValid]
+    cases doc with
+    | text s m =>
+      exfalso
+      obtain ⟨_, _, _, _, _, _, _, ha, _⟩ := canJoinR_facts S R hc
+      have hd := R.depth_eq
+      simp only [Node.kids, depthAt] at hd
+      simp [RPos.parent, hd, R.node_zero, Node.kids] at ha
+    | leaf t a m =>
+      exfalso
+      obtain ⟨_, _, _, _, _, _, _, ha, _⟩ := canJoinR_facts S R hc
+      have hd := R.depth_eq
+      simp only [Node.kids, depthAt] at hd
+      simp [RPos.parent, hd, R.node_zero, Node.kids] at ha
+    | elem ty0 a0 m0 K =>
+      obtain ⟨doc', hap⟩ := join_applies S hts ty0 a0 m0 K pos r st hr hv hn hg' hc hb
+      have hst : ∃ f t, st = .replace f t Slice.empty true := by
+        unfold joinStep at hb
+        split at hb
+        · simp at hb
+        · simp only [Except.ok.injEq] at hb; exact ⟨_, _, hb.symm⟩
+      obtain ⟨f, t, rfl⟩ := hst
+      exact ⟨doc', hap, C01.apply_valid S _ _ doc' hv (hpay f t) hap, join_keeps_content S _ doc' pos 1 _ hb hap⟩
+
+/-- `TextStable` can be checked on the automaton tables (`textStableC`, PM/Structure2.lean) -/
+theorem textStable_of_C (S : Schema) (h : textStableC S = true) : C01.TextStable S :=
+  textStableP_of_C S h
+
+/-- `exSchema` is `TextStable` -/
+private theorem ex_stable : C01.TextStable exSchema := textStable_of_C exSchema (by decide)
+
+/-- a non-trivial instance of all hypotheses: joining the two blockquotes of `exDoc2` -/
+example : ∃ doc', exSchema.apply (.replace 4 6 Slice.empty true) exDoc2 = .ok doc' ∧ C01.Valid exSchema doc' ∧
+    (ftoks doc'.kids).filter Tok.isContent = (ftoks exDoc2.kids).filter Tok.isContent :=
+  canJoin_join_applies exSchema ex_stable exDoc2 5 _ rfl rfl rfl rfl rfl
+
+/-- in the counterexample above the guard does not hold -/
+example : joinGuard cexSchema cexDoc 3 = false := by rfl
+
+/-- `TextStable` is needed: `doc: A B?`, `A: (text|image) (text|image) (text image)?`, `B: (text|image) image`;
+    `A(em("a"), "b")` and `B("c", image)`: `can_append` accepts `text text text image`, the join merges `"b"`
+    and `"c"` and `A` refuses `text text image` (`TransformError('Invalid content for node A')`) -/
+private def joinTsSchema : Schema :=
+  { nodes := #[cexNT "doc" false #[⟨false, [(1, 1)]⟩, ⟨true, [(2, 2)]⟩, ⟨true, []⟩],
+      cexNT "A" false #[⟨false, [(3, 1), (4, 1)]⟩, ⟨false, [(3, 2), (4, 2)]⟩, ⟨true, [(3, 3)]⟩,
+        ⟨false, [(4, 4)]⟩, ⟨true, []⟩],
+      cexNT "B" false #[⟨false, [(3, 1), (4, 1)]⟩, ⟨false, [(4, 2)]⟩, ⟨true, []⟩],
+      { cexNT "text" true #[⟨true, []⟩] with isText := true, isInline := true },
+      { cexNT "image" true #[⟨true, []⟩] with isInline := true }],
+    marks := #[⟨"em", [0], true, []⟩], top := 0, textTy := 3 }
+
+private def joinTsDoc : Node :=
+  .elem 0 [] [] [.elem 1 [] [] [.text [97] [⟨0, []⟩], .text [98] []], .elem 2 [] [] [.text [99] [], .leaf 4 [] []]]
+
+example : C01.Valid joinTsSchema joinTsDoc := by rfl
+example : fnorm joinTsDoc.kids = true := by rfl
+example : canJoin joinTsSchema joinTsDoc 4 = some (some true) := by rfl
+example : joinGuard joinTsSchema joinTsDoc 4 = true := by rfl
+example : joinStep 4 1 = .ok (.replace 3 5 Slice.empty true) := by rfl
+example : ¬ C01.TextStable joinTsSchema := by
+  intro h
+  have := h 1 0 1 2 (by rfl) (by rfl)
+  omega
+example : joinTsSchema.apply (.replace 3 5 Slice.empty true) joinTsDoc = .error .failed := by
+  have hc : contentBetween joinTsDoc 3 5 = some false := by
+    apply contentBetween_closesOpens _ _ _ (by rfl) (by omega) (by decide)
+    rfl
+  have hv : joinTsSchema.validContent 1 [.text [97] [⟨0, []⟩], .text [98, 99] [], .leaf 4 [] []] = false := by decide
+  unfold joinTsDoc at hc
+  simp [Schema.apply, hc, Schema.fromReplace, Schema.replace, joinTsDoc, replaceKids, Slice.empty,
+    inRange, depthAt, Slice.wf, spineL, spineR, outer, atLevel, twoWay,
+    splitRight, Schema.close, fromArray, addNodes, addNode, hv,
+    Except.map, Schema.compatibleContent]
+
+/-! ### WRAP-BEGIN -/
+
+/-! ### an approved wrap applies
+
+    The unguarded statement
+      `findWrappingRange S doc a b depth ty = some (some chain) → ws.map (·.1) = chain →
+       wrapStep S doc a b depth ws = .ok st → ∃ doc', S.apply st doc = .ok doc'`
+    is **false** for the model and for the code alike (upstream too; finding C12-wrap-ignores-marks):
+    `find_wrapping_inside` walks the innermost wrapper's automaton over the *types* of the nodes of the range, the
+    wrap itself (`ReplaceAroundStep.apply` → `Slice.insert_at` → `insert_into`) asks that wrapper
+    `can_replace(0, 0, nodes)`, which also wants it to allow their *marks*.  In a schema whose `doc` allows marks
+    on its block children (`marks: "_"`), `doc(em(p("a")))`: `find_wrapping(range of the paragraph, quote)`
+    approves `[quote]` and `Transform.wrap` raises `TransformError("Content does not fit in gap")`
+    (`wrapCex…` below).  `wrapGuard` (PM/StructEdit.lean) is that test (and "no wrapper type is a leaf type",
+    which `find_wrapping` guarantees in a compiled schema).  Nothing else is needed: no `TextStable` (the run's
+    neighbours get an element node between them, nothing merges), no alignment (both ends are child
+    boundaries), and an empty run is fine. -/
+
+/-- **`find_wrapping` approves ∧ `wrapGuard` ⇒ `wrap` succeeds** with a schema-valid document that keeps the
+    text and leaf nodes: valid normal-form document; a node range as `block_range` builds it (`from ≤ to`,
+    `to` inside the node at the range's depth, both ends at child boundaries of that node); wrappers of the
+    approved types (any attributes `wrap` accepts).  (`depth ≤` both depths is implied by the approval.) -/
+theorem findWrapping_wrap_applies (S : Schema) (doc : Node) (a b depth : Nat) (ty : TypeId)
+    (chain : List TypeId) (ws : List (TypeId × Attrs)) (st : Step) (rf rt : RPos)
+    (hv : C01.Valid S doc) (hn : fnorm doc.kids = true)
+    (hf : doc.resolve a = some rf) (ht : doc.resolve b = some rt)
+    (hab : a ≤ b) (hend : b ≤ rf.end_ depth)
+    (hfb : depth < rf.depth ∨ rf.textOffset = 0) (htb : depth < rt.depth ∨ rt.textOffset = 0)
+    (hg : wrapGuard S doc a b depth ws = true)
+    (hc : findWrappingRange S doc a b depth ty = some (some chain)) (hws : ws.map (·.1) = chain)
+    (hb : wrapStep S doc a b depth ws = .ok st) :
+    ∃ doc', S.apply st doc = .ok doc' ∧ C01.Valid S doc' ∧
+      (ftoks doc'.kids).filter Tok.isContent = (ftoks doc.kids).filter Tok.isContent := by
+  have hc' : findWrappingR S rf rt depth ty = some (some chain) := by simpa [findWrappingRange, hf, ht] using hc
+  have hg' : wrapGuardR S rf rt depth ws = true := by simpa [wrapGuard, hf, ht] using hg
+  have hb' : wrapStepR S rf rt depth ws = .ok st := by simpa [wrapStep, hf, ht] using hb
+  obtain ⟨hdf, hdt, hchild⟩ := findWrappingR_child S rf rt depth ty chain hc'
+  have hl : ∀ w ∈ ws, (S.nodeType w.1).isLeaf = false := by
+    simp only [wrapGuardR, Bool.and_eq_true, List.all_eq_true, Bool.not_eq_true'] at hg'
+    exact hg'.1
+  cases doc with
+  | text s m =>
+    exfalso
+    have R := resolve_resolved hf
+    have hd := R.depth_eq
+    simp only [Node.kids, depthAt] at hd
+    have : depth = 0 := by omega
+    subst this
+    simp [R.node_zero, Node.kids] at hchild
+  | leaf t' a' m =>
+    exfalso
+    have R := resolve_resolved hf
+    have hd := R.depth_eq
+    simp only [Node.kids, depthAt] at hd
+    have : depth = 0 := by omega
+    subst this
+    simp [R.node_zero, Node.kids] at hchild
+  | elem ty0 a0 m0 K =>
+    obtain ⟨s, e, as, mid, rfl, hsl, hins, hpay, doc', hap⟩ :=
+      wrap_applies S ty0 a0 m0 K a b depth ty chain ws rf rt st hf ht hv hn hab hdf hdt hend hfb htb hc' hws hg' hb'
+    have hpv : C01.PayloadValid S (.elem ty0 a0 m0 K)
+        (.replaceAround s e s e ⟨wrapNest as [], 0, 0⟩ as.length true) := by
+      intro gap ins h1 h2
+      rw [hsl] at h1
+      simp only [Except.ok.injEq] at h1
+      subst h1
+      rw [hins] at h2
+      simp only [Except.ok.injEq, Option.some.injEq] at h2
+      subst h2
+      simpa [openValid, rightOpenValid] using hpay
+    exact ⟨doc', hap, C01.apply_valid S _ _ doc' hv hpv hap, wrap_keeps_content S _ doc' a b depth ws _ hab hl hb hap⟩
+
+/-- **… and the step gets built** when the wrappers pass `wrap`'s own test (`wrapBuilds`: each accepts the next as its
+    only child, attributes complete): approval ∧ `wrapGuard` ∧ `wrapBuilds` ⇒ `Transform.wrap` succeeds.
+    Without `wrapBuilds` the statement is **false**, for the model and for the code alike (upstream algorithm):
+    `compute_wrapping` stops as soon as the last wrapper found accepts the target as *first* child.  Schema
+    `doc: block+`, `p: text*` (block), `pair: item item` (block), `item: p+`; `doc(p("a"))`:
+    `find_wrapping(range of the paragraph, item)` approves `[pair, item]` and `Transform.wrap` raises
+    `TransformError("Wrapper type given to Transform.wrap does not form valid content of its parent wrapper")`
+    (`wrapPairSchema` below). -/
+theorem findWrapping_wrap_succeeds (S : Schema) (doc : Node) (a b depth : Nat) (ty : TypeId)
+    (chain : List TypeId) (ws : List (TypeId × Attrs)) (rf rt : RPos)
+    (hv : C01.Valid S doc) (hn : fnorm doc.kids = true)
+    (hf : doc.resolve a = some rf) (ht : doc.resolve b = some rt)
+    (hab : a ≤ b) (hend : b ≤ rf.end_ depth)
+    (hfb : depth < rf.depth ∨ rf.textOffset = 0) (htb : depth < rt.depth ∨ rt.textOffset = 0)
+    (hg : wrapGuard S doc a b depth ws = true) (hbuild : wrapBuilds S ws = true)
+    (hc : findWrappingRange S doc a b depth ty = some (some chain)) (hws : ws.map (·.1) = chain) :
+    ∃ st doc', wrapStep S doc a b depth ws = .ok st ∧ S.apply st doc = .ok doc' ∧ C01.Valid S doc' ∧
+      (ftoks doc'.kids).filter Tok.isContent = (ftoks doc.kids).filter Tok.isContent := by
+  have hc' : findWrappingR S rf rt depth ty = some (some chain) := by simpa [findWrappingRange, hf, ht] using hc
+  obtain ⟨hdf, hdt, _⟩ := findWrappingR_child S rf rt depth ty chain hc'
+  obtain ⟨gs, hgs⟩ := (resolve_resolved hf).before_isSome depth hdf
+  obtain ⟨ge, hge⟩ := (resolve_resolved ht).after_isSome depth hdt
+  have hb : ∃ st, wrapStep S doc a b depth ws = .ok st := by
+    unfold wrapBuilds at hbuild
+    cases hw : wrapContent S ws with
+    | error e => simp [hw] at hbuild
+    | ok content =>
+      exact ⟨.replaceAround gs ge gs ge ⟨content, 0, 0⟩ ws.length true,
+        by simp [wrapStep, hf, ht, wrapStepR, hw, hgs, hge]⟩
+  obtain ⟨st, hb⟩ := hb
+  obtain ⟨doc', h1, h2, h3⟩ := findWrapping_wrap_applies S doc a b depth ty chain ws st rf rt hv hn hf ht hab hend
+    hfb htb hg hc hws hb
+  exact ⟨st, doc', hb, h1, h2, h3⟩
+
+/-- a non-trivial instance of all hypotheses: wrapping the second paragraph of `exDoc` in a blockquote -/
+example : ∃ doc', exSchema.apply (.replaceAround 4 7 4 7 ⟨[.elem 1 [] [] []], 0, 0⟩ 1 true) exDoc = .ok doc' ∧
+    C01.Valid exSchema doc' ∧
+    (ftoks doc'.kids).filter Tok.isContent = (ftoks exDoc.kids).filter Tok.isContent :=
+  findWrapping_wrap_applies exSchema exDoc 5 6 1 1 [1] [(1, [])] _
+    ((exDoc.resolve 5).get rfl) ((exDoc.resolve 6).get rfl) rfl rfl (Option.some_get _).symm (Option.some_get _).symm
+    (by decide) (by decide) (by decide) (by decide) rfl rfl rfl rfl
+example : wrapBuilds exSchema [(1, [])] = true := by rfl
+
+/-- the guard is needed: `doc` allows marks on its children (`marks: "_"`), `quote` allows none -/
+private def wrapCexSchema : Schema :=
+  { nodes := #[exNT "doc" false false blocksDfa, { exNT "quote" false false blocksDfa with markSet := some [] },
+      exNT "p" false true #[⟨true, [(3, 0)]⟩], exNT "text" true false #[⟨true, []⟩]],
+    marks := #[⟨"em", [0], true, []⟩], top := 0, textTy := 3 }
+
+/-- `doc(em(p("a")))` -/
+private def wrapCexDoc : Node := .elem 0 [] [] [.elem 2 [] [⟨0, []⟩] [.text [97] []]]
+
+example : C01.Valid wrapCexSchema wrapCexDoc := by rfl
+example : fnorm wrapCexDoc.kids = true := by rfl
+/-- the helper approves (the block range of the paragraph: `from = 1`, `to = 2`, depth 0) … -/
+example : findWrappingRange wrapCexSchema wrapCexDoc 1 2 0 1 = some (some [1]) := by rfl
+/-- … the guard does not hold … -/
+example : wrapGuard wrapCexSchema wrapCexDoc 1 2 0 [(1, [])] = false := by rfl
+/-- … and the wrap is refused: "Content does not fit in gap" -/
+example : wrapStep wrapCexSchema wrapCexDoc 1 2 0 [(1, [])] =
+    .ok (.replaceAround 0 3 0 3 ⟨[.elem 1 [] [] []], 0, 0⟩ 1 true) := by rfl
+example : wrapCexSchema.apply (.replaceAround 0 3 0 3 ⟨[.elem 1 [] [] []], 0, 0⟩ 1 true) wrapCexDoc
+    = .error .failed := by
+  have hc0 : contentBetween wrapCexDoc 0 0 = some false := by
+    obtain ⟨r, hr⟩ := resolve_isSome wrapCexDoc 0 (by decide)
+    exact contentBetween_empty _ _ r hr
+  have hc3 : contentBetween wrapCexDoc 3 3 = some false := by
+    obtain ⟨r, hr⟩ := resolve_isSome wrapCexDoc 3 (by decide)
+    exact contentBetween_empty _ _ r hr
+  have hs : wrapCexDoc.slice 0 3 = .ok ⟨[.elem 2 [] [⟨0, []⟩] [.text [97] []]], 0, 0⟩ :=
+    sliceKids_children (pre := []) (mid := [.elem 2 [] [⟨0, []⟩] [.text [97] []]]) (post := []) (Lvl.here 0 _) (by rfl)
+  have hcr : wrapCexSchema.canReplace 1 [] 0 0 [.elem 2 [] [⟨0, []⟩] [.text [97] []]] 0 1 = some false := by decide
+  have hi : Slice.insertAt wrapCexSchema ⟨[.elem 1 [] [] []], 0, 0⟩ 1 [.elem 2 [] [⟨0, []⟩] [.text [97] []]]
+      = .ok none := by
+    simp [Slice.insertAt, insertInto, flatInsert, hcr]
+  simp [Schema.apply, hc0, hc3, hs, hi]
+
+/-- `wrapBuilds` is needed: `doc: block+`, `pair: item item`, `item: p+`, `p: text*`; `doc(p("a"))` -/
+private def wrapPairSchema : Schema :=
+  { nodes := #[exNT "doc" false false #[⟨false, [(1, 1), (3, 1)]⟩, ⟨true, [(1, 1), (3, 1)]⟩],
+      exNT "pair" false false #[⟨false, [(2, 1)]⟩, ⟨false, [(2, 2)]⟩, ⟨true, []⟩],
+      exNT "item" false false #[⟨false, [(3, 1)]⟩, ⟨true, [(3, 1)]⟩],
+      exNT "p" false true #[⟨true, [(4, 0)]⟩], exNT "text" true false #[⟨true, []⟩]],
+    marks := #[], top := 0, textTy := 4 }
+
+private def wrapPairDoc : Node := .elem 0 [] [] [.elem 3 [] [] [.text [97] []]]
+
+example : C01.Valid wrapPairSchema wrapPairDoc := by rfl
+/-- the helper approves `[pair, item]`, the marks guard holds … -/
+example : findWrappingRange wrapPairSchema wrapPairDoc 1 2 0 2 = some (some [1, 2]) := by rfl
+example : wrapGuard wrapPairSchema wrapPairDoc 1 2 0 [(1, []), (2, [])] = true := by rfl
+/-- … and `wrap` refuses to build the step: `pair` does not take a single `item` -/
+example : wrapBuilds wrapPairSchema [(1, []), (2, [])] = false := by rfl
+example : wrapStep wrapPairSchema wrapPairDoc 1 2 0 [(1, []), (2, [])] = .error .failed := by rfl
+
+/-! ### WRAP-END -/
+/-! ### LIFT-BEGIN -/
+
+/-! ### an approved lift applies — when nothing has to be split
+
+    The unguarded statement
+      `liftTarget S doc a b depth = some (some target) → liftStep doc a b depth target = .ok st →
+         ∃ doc', S.apply st doc = .ok doc'`
+    is **false** for the model and for the code alike (upstream too), in two ways, both arising when the lift has
+    to *split* ancestors of the range (the range has siblings before or after it at some level `d`,
+    `target < d ≤ depth`):
+    (a) `can_cut` validates the siblings left behind on their own, but the node left behind also receives the
+        split-off copy of its deeper child (open finding C12-lift-split-invalid; `liftNestSchema` below: the first
+        item of a nested list);
+    (b) `lift_target` asks `node(target).can_replace(index, end_index, content)`, i.e. the target node with the
+        range's ancestor *removed* — but the copies the split leaves behind stay there as extra children
+        (`liftCopySchema` below: doc content `blockquote | paragraph+`, `doc(blockquote(p, p))`, lifting either
+        paragraph is approved — `doc(p)` is valid — and would give `doc(blockquote(p), p)`).
+    `liftFlatGuard` (PM/StructEdit.lean) says that nothing is split: at every level `d`, `target < d ≤ depth`, the
+    range starts at the first child and ends at the last — the two tests of `lift`'s loops.  Then the approval is
+    exactly the validity of the new child list of `node(target)`, up to the merge of the lifted text with its new
+    neighbours: `TextStable` (needed, for code and model: `liftTsSchema` below). -/
+
+/-- **`lift_target` approves ∧ nothing is split ∧ `TextStable` ⇒ `lift` succeeds** with a schema-valid document
+    that keeps the text and leaf nodes.  The range is a node range as `block_range` builds it: `from ≤ to`, `to`
+    inside the node at the range's depth, both ends at child boundaries of that node.  (`target < depth ≤` the
+    depths of both ends is implied by the approval.) -/
+theorem liftTarget_lift_applies_flat (S : Schema) (hts : C01.TextStable S) (doc : Node)
+    (a b depth target : Nat) (f t : RPos) (st : Step)
+    (hv : C01.Valid S doc) (hn : fnorm doc.kids = true)
+    (hf : doc.resolve a = some f) (ht : doc.resolve b = some t)
+    (hab : a ≤ b) (hend : b ≤ f.end_ depth)
+    (hfb : depth < f.depth ∨ f.textOffset = 0) (htb : depth < t.depth ∨ t.textOffset = 0)
+    (hg : liftFlatGuard doc a b depth target = true)
+    (hc : liftTarget S doc a b depth = some (some target))
+    (hb : liftStep doc a b depth target = .ok st) :
+    ∃ doc', S.apply st doc = .ok doc' ∧ C01.Valid S doc' ∧
+      (ftoks doc'.kids).filter Tok.isContent = (ftoks doc.kids).filter Tok.isContent := by
+  obtain ⟨htd, hdf, _⟩ := liftTarget_in_range S doc a b depth target f t hf ht hc
+  have hg' : liftFlatGuardR f t depth target = true := by simpa [liftFlatGuard, hf, ht] using hg
+  have hc' : liftTargetR S f t depth = some (some target) := by simpa [liftTarget, hf, ht] using hc
+  have hb' : liftStepR f t depth target = .ok st := by simpa [liftStep, hf, ht] using hb
+  have R := resolve_resolved hf
+  cases doc with
+  | text s m => have := R.depth_eq; simp [Node.kids, depthAt] at this; omega
+  | leaf ty at_ m => have := R.depth_eq; simp [Node.kids, depthAt] at this; omega
+  | elem ty0 a0 m0 K =>
+    obtain ⟨⟨doc', hap⟩, f', t', gs, ge, rfl, hpay⟩ :=
+      lift_flat_applies S hts ty0 a0 m0 K a b depth target f t st hf ht hv hn hab hend hfb htb hg' hc' hb'
+    exact ⟨doc', hap, C01.apply_valid S (.replaceAround f' t' gs ge ⟨[], 0, 0⟩ 0 true) _ doc' hv hpay hap,
+      lift_keeps_content S _ doc' a b depth target _ hab hb hap⟩
+
+/-- non-trivial instances of all hypotheses: `doc(blockquote(p("a")))`, lifting the only paragraph -/
+private def liftDoc : Node := .elem 0 [] [] [.elem 1 [] [] [.elem 2 [] [] [.text [97] []]]]
+
+example : liftTarget exSchema liftDoc 2 3 1 = some (some 0) := by rfl
+example : liftFlatGuard liftDoc 2 3 1 0 = true := by rfl
+example : liftStep liftDoc 2 3 1 0 = .ok (.replaceAround 0 5 1 4 ⟨[], 0, 0⟩ 0 true) := by rfl
+example : ∃ doc', exSchema.apply (.replaceAround 0 5 1 4 ⟨[], 0, 0⟩ 0 true) liftDoc = .ok doc' ∧
+    C01.Valid exSchema doc' ∧
+    (ftoks doc'.kids).filter Tok.isContent = (ftoks liftDoc.kids).filter Tok.isContent :=
+  liftTarget_lift_applies_flat exSchema ex_stable liftDoc 2 3 1 0 _ _ _ rfl rfl rfl rfl (by decide) (by decide)
+    (.inl (by decide)) (.inl (by decide)) rfl rfl rfl
+
+/-- … and two levels at once: `doc: (A | p)+`, `A: B+`, `B: p+`; in `doc(A(B(p("a"))))` the paragraph cannot go
+    into `A`, it is lifted to depth 0 through both wrappers (`ReplaceAroundStep(0, 7, 2, 5, Slice.empty, 0)`) -/
+private def lift2Schema : Schema :=
+  { nodes := #[exNT "doc" false false #[⟨false, [(1, 1), (3, 1)]⟩, ⟨true, [(1, 1), (3, 1)]⟩],
+      exNT "A" false false #[⟨false, [(2, 1)]⟩, ⟨true, [(2, 1)]⟩],
+      exNT "B" false false #[⟨false, [(3, 1)]⟩, ⟨true, [(3, 1)]⟩],
+      exNT "p" false true #[⟨true, [(4, 0)]⟩], exNT "text" true false #[⟨true, []⟩]],
+    marks := #[], top := 0, textTy := 4 }
+
+private def lift2Doc : Node :=
+  .elem 0 [] [] [.elem 1 [] [] [.elem 2 [] [] [.elem 3 [] [] [.text [97] []]]]]
+
+example : liftTarget lift2Schema lift2Doc 3 4 2 = some (some 0) := by rfl
+example : ∃ doc', lift2Schema.apply (.replaceAround 0 7 2 5 ⟨[], 0, 0⟩ 0 true) lift2Doc = .ok doc' ∧
+    C01.Valid lift2Schema doc' ∧
+    (ftoks doc'.kids).filter Tok.isContent = (ftoks lift2Doc.kids).filter Tok.isContent :=
+  liftTarget_lift_applies_flat lift2Schema (textStable_of_C _ (by decide)) lift2Doc 3 4 2 0 _ _ _ rfl rfl rfl rfl
+    (by decide) (by decide) (.inl (by decide)) (.inl (by decide)) rfl rfl rfl
+
+/-- the guard is needed, (b): `doc: blockquote | paragraph+`; in `exDoc = doc(blockquote(p("a"), p("b")))` lifting
+    the second paragraph is approved (`doc(p("b"))` is valid) … -/
+private def liftCopySchema : Schema :=
+  { nodes := #[exNT "doc" false false #[⟨false, [(1, 1), (2, 2)]⟩, ⟨true, []⟩, ⟨true, [(2, 2)]⟩],
+      exNT "blockquote" false false #[⟨false, [(2, 1)]⟩, ⟨true, [(2, 1)]⟩],
+      exNT "paragraph" false true #[⟨true, [(3, 0)]⟩], exNT "text" true false #[⟨true, []⟩]],
+    marks := #[], top := 0, textTy := 3 }
+
+example : C01.Valid liftCopySchema exDoc := by rfl
+example : textStableC liftCopySchema = true := by decide
+example : liftTarget liftCopySchema exDoc 5 6 1 = some (some 0) := by rfl
+/-- … the blockquote has to be split before it … -/
+example : liftFlatGuard exDoc 5 6 1 0 = false := by rfl
+example : liftStep exDoc 5 6 1 0 = .ok (.replaceAround 4 8 4 7 ⟨[.elem 1 [] [] []], 1, 0⟩ 1 true) := by rfl
+/-- (a structure-flagged replace-around step, evaluated from its parts) -/
+private theorem apply_around_of_parts (S : Schema) (doc : Node) (f t gf gt : Nat) (sl : Slice) (i : Nat)
+    (gap : List Node) (ins : Slice) (r : Res Node)
+    (h1 : contentBetween doc f gf = some false) (h2 : contentBetween doc gt t = some false)
+    (h3 : doc.slice gf gt = .ok ⟨gap, 0, 0⟩) (h4 : sl.insertAt S i gap = .ok (some ins))
+    (h5 : S.fromReplace doc f t ins = r) : S.apply (.replaceAround f t gf gt sl i true) doc = r := by
+  simp [Schema.apply, h1, h2, h3, h4, h5]
+
+/-- … and the step is refused: `doc(blockquote(p("a")), p("b"))` is not valid content of `doc` -/
+example : liftCopySchema.apply (.replaceAround 4 8 4 7 ⟨[.elem 1 [] [] []], 1, 0⟩ 1 true) exDoc
+    = .error .failed := by
+  refine apply_around_of_parts liftCopySchema exDoc 4 8 4 7 _ 1 [.elem 2 [] [] [.text [98] []]]
+    ⟨[.elem 1 [] [] [], .elem 2 [] [] [.text [98] []]], 1, 0⟩ _ rfl rfl ?_ ?_ ?_
+  · simp [Node.slice, exDoc, Node.kids, sliceKids, inRange, sliceScan, sliceHere, fcut, fcutLoop, depthAt]
+  · simp [Slice.insertAt, insertInto, flatInsert, fcut, fappend, addNode]
+  · have hv : liftCopySchema.validContent 0
+        [.elem 1 [] [] [.elem 2 [] [] [.text [97] []]], .elem 2 [] [] [.text [98] []]] = false := by decide
+    have hv1 : liftCopySchema.validContent 1 [.elem 2 [] [] [.text [97] []]] = true := by decide
+    simp [Schema.fromReplace, Schema.replace, exDoc, replaceKids, hv, hv1, rightJoin, middle, RSplit.rest,
+      inRange, depthAt, Slice.wf, spineL, spineR, outer, atLevel, threeWay, threeWay.rightJoinCheck, twoWay,
+      splitRight, Schema.close, fromArray, addNodes, addNode, Except.map, Schema.compatibleContent]
+
+/-- the guard is needed, (a) (open finding C12-lift-split-invalid): `doc: list+`, `list: item+`, `item: p list?`;
+    in `doc(list(item(p, list(item(p), item(p)))))` lifting the first inner item (`NodeRange(5, 9, 3)`, also what
+    `block_range` gives at position 6) to depth 1 is approved: `can_cut` finds `item(p)` and `list(item(p))` valid —
+    but the right half of the split outer item is `item(list(item(p)))`, without its leading paragraph -/
+private def liftNestSchema : Schema :=
+  { nodes := #[exNT "doc" false false #[⟨false, [(1, 1)]⟩, ⟨true, [(1, 1)]⟩],
+      exNT "list" false false #[⟨false, [(2, 1)]⟩, ⟨true, [(2, 1)]⟩],
+      exNT "item" false false #[⟨false, [(3, 1)]⟩, ⟨true, [(1, 2)]⟩, ⟨true, []⟩],
+      exNT "p" false true #[⟨true, [(4, 0)]⟩], exNT "text" true false #[⟨true, []⟩]],
+    marks := #[], top := 0, textTy := 4 }
+
+private def liftNestDoc : Node :=
+  .elem 0 [] [] [.elem 1 [] [] [.elem 2 [] [] [.elem 3 [] [] [],
+    .elem 1 [] [] [.elem 2 [] [] [.elem 3 [] [] []], .elem 2 [] [] [.elem 3 [] [] []]]]]]
+
+example : C01.Valid liftNestSchema liftNestDoc := by rfl
+example : textStableC liftNestSchema = true := by decide
+example : liftTarget liftNestSchema liftNestDoc 5 9 3 = some (some 1) := by rfl
+example : liftFlatGuard liftNestDoc 5 9 3 1 = false := by rfl
+example : liftStep liftNestDoc 5 9 3 1 = .ok (.replaceAround 4 9 5 9
+    ⟨[.elem 2 [] [] [], .elem 2 [] [] [.elem 1 [] [] []]], 1, 2⟩ 1 true) := by rfl
+example : liftNestSchema.apply (.replaceAround 4 9 5 9
+    ⟨[.elem 2 [] [] [], .elem 2 [] [] [.elem 1 [] [] []]], 1, 2⟩ 1 true) liftNestDoc = .error .failed := by
+  refine apply_around_of_parts liftNestSchema liftNestDoc 4 9 5 9 _ 1 [.elem 2 [] [] [.elem 3 [] [] []]]
+    ⟨[.elem 2 [] [] [], .elem 2 [] [] [.elem 3 [] [] []], .elem 2 [] [] [.elem 1 [] [] []]], 1, 2⟩ _ rfl rfl ?_ ?_ ?_
+  · simp [Node.slice, liftNestDoc, Node.kids, sliceKids, inRange, sliceScan, sliceHere, fcut, fcutLoop, depthAt]
+  · simp [Slice.insertAt, insertInto, flatInsert, fcut, fcutLoop, fappend, addNode]
+  · have hv : liftNestSchema.validContent 2 [.elem 1 [] [] [.elem 2 [] [] [.elem 3 [] [] []]]] = false := by decide
+    have hv1 : liftNestSchema.validContent 2 [.elem 3 [] [] []] = true := by decide
+    have hv2 : liftNestSchema.validContent 1 [.elem 2 [] [] [.elem 3 [] [] []]] = true := by decide
+    simp [Schema.fromReplace, Schema.replace, liftNestDoc, replaceKids, hv, hv1, hv2, rightJoin,
+      inRange, depthAt, Slice.wf, spineL, spineR, outer, atLevel, threeWay, threeWay.rightJoinCheck, twoWay,
+      splitRight, Schema.close, fromArray, addNodes, addNode, Except.map, Schema.compatibleContent]
+
+/-- `TextStable` is needed (nothing is split here): `p: (text|image) (text|image|span) (text|image)`, `span`
+    inline with content `text*`; in `doc(p("a", span("b"), "c"))` lifting `"b"` out of the span
+    (`NodeRange(3, 4, 2)`) is approved: `can_replace` accepts `text text text` — the replace merges them into
+    `p("abc")` and `p` refuses a single child (`TransformError('Invalid content for node p')`) -/
+private def liftTsSchema : Schema :=
+  { nodes := #[exNT "doc" false false #[⟨false, [(1, 1)]⟩, ⟨true, [(1, 1)]⟩],
+      exNT "p" false true #[⟨false, [(3, 1), (4, 1)]⟩, ⟨false, [(3, 2), (4, 2), (2, 2)]⟩,
+        ⟨false, [(3, 3), (4, 3)]⟩, ⟨true, []⟩],
+      { exNT "span" false true #[⟨true, [(3, 0)]⟩] with isInline := true },
+      exNT "text" true false #[⟨true, []⟩],
+      { exNT "image" true false #[⟨true, []⟩] with isText := false }],
+    marks := #[], top := 0, textTy := 3 }
+
+private def liftTsDoc : Node :=
+  .elem 0 [] [] [.elem 1 [] [] [.text [97] [], .elem 2 [] [] [.text [98] []], .text [99] []]]
+
+example : C01.Valid liftTsSchema liftTsDoc := by rfl
+example : fnorm liftTsDoc.kids = true := by rfl
+example : liftTarget liftTsSchema liftTsDoc 3 4 2 = some (some 1) := by rfl
+example : liftFlatGuard liftTsDoc 3 4 2 1 = true := by rfl
+example : liftStep liftTsDoc 3 4 2 1 = .ok (.replaceAround 2 5 3 4 ⟨[], 0, 0⟩ 0 true) := by rfl
+example : ¬ C01.TextStable liftTsSchema := by
+  intro h
+  have := h 1 0 1 2 (by rfl) (by rfl)
+  omega
+example : liftTsSchema.apply (.replaceAround 2 5 3 4 ⟨[], 0, 0⟩ 0 true) liftTsDoc = .error .failed := by
+  refine apply_around_of_parts liftTsSchema liftTsDoc 2 5 3 4 _ 0 [.text [98] []] ⟨[.text [98] []], 0, 0⟩ _ rfl rfl ?_
+    (insertAt_empty _ _) ?_
+  · simp [Node.slice, liftTsDoc, Node.kids, sliceKids, inRange, sliceScan, sliceHere, fcut, depthAt]
+  · have hv : liftTsSchema.validContent 1 [.text [97, 98, 99] []] = false := by decide
+    simp [Schema.fromReplace, Schema.replace, liftTsDoc, replaceKids, hv,
+      inRange, depthAt, Slice.wf, spineL, spineR, outer, atLevel, fcut, fcutLoop, fappend, addNode, Except.map]
+
+/-! ### an approved lift applies — in general, given that the pieces the split leaves behind are valid
+
+    `liftGuard` (PM/StructEdit.lean) recomputes, level by level, the node the split leaves before the range (the
+    children before it plus the copy left one level deeper) and the one it leaves after it, asks that each is valid
+    content for its type — failure (a) above — and that `node(target)` accepts its new child list *with the two
+    copies in place* — failure (b).  When nothing is split it is the approval itself
+    (`liftTarget_lift_applies_flat`).  The tie evaluates it at every approved lift: it held exactly where the real
+    `lift` succeeded (in `TextStable` schemas). -/
+
+/-- **`lift_target` approves ∧ `liftGuard` ∧ `TextStable` ⇒ `lift` succeeds** with a schema-valid document that
+    keeps the text and leaf nodes — whether or not ancestors of the range have to be split. -/
+theorem liftTarget_lift_applies (S : Schema) (hts : C01.TextStable S) (doc : Node)
+    (a b depth target : Nat) (f t : RPos) (st : Step)
+    (hv : C01.Valid S doc) (hn : fnorm doc.kids = true)
+    (hf : doc.resolve a = some f) (ht : doc.resolve b = some t)
+    (hab : a ≤ b) (hend : b ≤ f.end_ depth)
+    (hfb : depth < f.depth ∨ f.textOffset = 0) (htb : depth < t.depth ∨ t.textOffset = 0)
+    (hg : liftGuard S doc a b depth target = true)
+    (hc : liftTarget S doc a b depth = some (some target))
+    (hb : liftStep doc a b depth target = .ok st) :
+    ∃ doc', S.apply st doc = .ok doc' ∧ C01.Valid S doc' ∧
+      (ftoks doc'.kids).filter Tok.isContent = (ftoks doc.kids).filter Tok.isContent := by
+  obtain ⟨htd, hdf, _⟩ := liftTarget_in_range S doc a b depth target f t hf ht hc
+  have hg' : liftGuardR S f t depth target = true := by simpa [liftGuard, hf, ht] using hg
+  have hc' : liftTargetR S f t depth = some (some target) := by simpa [liftTarget, hf, ht] using hc
+  have hb' : liftStepR f t depth target = .ok st := by simpa [liftStep, hf, ht] using hb
+  have R := resolve_resolved hf
+  cases doc with
+  | text s m => have := R.depth_eq; simp [Node.kids, depthAt] at this; omega
+  | leaf ty at_ m => have := R.depth_eq; simp [Node.kids, depthAt] at this; omega
+  | elem ty0 a0 m0 K =>
+    obtain ⟨⟨doc', hap⟩, f', t', gs, ge, sl, i, rfl, hpay⟩ :=
+      lift_applies S hts ty0 a0 m0 K a b depth target f t st hf ht hv hn hab hend hfb htb hg' hc' hb'
+    exact ⟨doc', hap, C01.apply_valid S (.replaceAround f' t' gs ge sl i true) _ doc' hv hpay hap,
+      lift_keeps_content S _ doc' a b depth target _ hab hb hap⟩
+
+/-- when nothing is split, `liftGuard` follows from the approval (`liftTarget_lift_applies_flat` is this special
+    case of `liftTarget_lift_applies`) -/
+theorem liftGuard_of_flat (S : Schema) (doc : Node) (a b depth target : Nat) (f t : RPos)
+    (hv : C01.Valid S doc) (hf : doc.resolve a = some f) (ht : doc.resolve b = some t)
+    (hab : a ≤ b) (hend : b ≤ f.end_ depth)
+    (hg : liftFlatGuard doc a b depth target = true)
+    (hc : liftTarget S doc a b depth = some (some target)) : liftGuard S doc a b depth target = true := by
+  have hg' : liftFlatGuardR f t depth target = true := by simpa [liftFlatGuard, hf, ht] using hg
+  have hc' : liftTargetR S f t depth = some (some target) := by simpa [liftTarget, hf, ht] using hc
+  simpa [liftGuard, hf, ht] using liftGuardR_of_flat S depth target hf ht hv hab hend hg' hc'
+
+/-- a non-trivial instance: lifting the second paragraph of `exDoc = doc(blockquote(p("a"), p("b")))` to the top
+    splits the blockquote in front of it -/
+example : liftFlatGuard exDoc 5 6 1 0 = false ∧ liftGuard exSchema exDoc 5 6 1 0 = true := ⟨rfl, rfl⟩
+example : ∃ doc', exSchema.apply (.replaceAround 4 8 4 7 ⟨[.elem 1 [] [] []], 1, 0⟩ 1 true) exDoc = .ok doc' ∧
+    C01.Valid exSchema doc' ∧
+    (ftoks doc'.kids).filter Tok.isContent = (ftoks exDoc.kids).filter Tok.isContent :=
+  liftTarget_lift_applies exSchema ex_stable exDoc 5 6 1 0 _ _ _ rfl rfl rfl rfl (by decide) (by decide)
+    (.inl (by decide)) (.inl (by decide)) rfl rfl rfl
+/-- … the first one: split behind it -/
+example : ∃ doc', exSchema.apply (.replaceAround 0 4 1 4 ⟨[.elem 1 [] [] []], 0, 1⟩ 0 true) exDoc = .ok doc' ∧
+    C01.Valid exSchema doc' ∧
+    (ftoks doc'.kids).filter Tok.isContent = (ftoks exDoc.kids).filter Tok.isContent :=
+  liftTarget_lift_applies exSchema ex_stable exDoc 2 3 1 0 _ _ _ rfl rfl rfl rfl (by decide) (by decide)
+    (.inl (by decide)) (.inl (by decide)) rfl rfl rfl
+/-- … and the middle one of three: split on both sides -/
+private def exDoc3 : Node :=
+  .elem 0 [] [] [.elem 1 [] [] [.elem 2 [] [] [.text [97] []], .elem 2 [] [] [.text [98] []],
+    .elem 2 [] [] [.text [99] []]]]
+example : ∃ doc', exSchema.apply (.replaceAround 4 7 4 7 ⟨[.elem 1 [] [] [], .elem 1 [] [] []], 1, 1⟩ 1 true) exDoc3
+      = .ok doc' ∧ C01.Valid exSchema doc' ∧
+    (ftoks doc'.kids).filter Tok.isContent = (ftoks exDoc3.kids).filter Tok.isContent :=
+  liftTarget_lift_applies exSchema ex_stable exDoc3 5 6 1 0 _ _ _ rfl rfl rfl rfl (by decide) (by decide)
+    (.inl (by decide)) (.inl (by decide)) rfl rfl rfl
+/-- in the two counterexamples above the guard does not hold -/
+example : liftGuard liftCopySchema exDoc 5 6 1 0 = false := by rfl
+example : liftGuard liftNestSchema liftNestDoc 5 9 3 1 = false := by rfl
+/-- … and where nothing is split it does -/
+example : liftGuard exSchema liftDoc 2 3 1 0 = true ∧ liftGuard lift2Schema lift2Doc 3 4 2 0 = true := ⟨rfl, rfl⟩
+
+/-! ### LIFT-END -/
 
 end PM.C12
